@@ -297,7 +297,26 @@ func extTerm(fd protoreflect.FieldDescriptor) string {
 	case *ext_j5pb.FieldOptions_Timestamp:
 		term, back = "XTimestamp", &ext_j5pb.FieldOptions{Type: &ext_j5pb.FieldOptions_Timestamp{Timestamp: &ext_j5pb.TimestampField{}}}
 	case *ext_j5pb.FieldOptions_Key:
-		term, back = "XKey", &ext_j5pb.FieldOptions{Type: &ext_j5pb.FieldOptions_Key{Key: &ext_j5pb.KeyField{}}}
+		kf := &ext_j5pb.KeyField{}
+		f := "None"
+		switch kt := t.Key.Type.(type) {
+		case *ext_j5pb.KeyField_Pattern:
+			f = "(Some (KCustom " + vh.BytesTerm(kt.Pattern) + "))"
+			kf.Type = &ext_j5pb.KeyField_Pattern{Pattern: kt.Pattern}
+		case *ext_j5pb.KeyField_Format_:
+			switch kt.Format {
+			case ext_j5pb.KeyField_FORMAT_UNSPECIFIED:
+				f = "(Some KInformal)"
+			case ext_j5pb.KeyField_FORMAT_UUID:
+				f = "(Some KUuid)"
+			case ext_j5pb.KeyField_FORMAT_ID62:
+				f = "(Some KId62)"
+			default:
+				return "(Some XOther)"
+			}
+			kf.Type = &ext_j5pb.KeyField_Format_{Format: kt.Format}
+		}
+		term, back = "(XKey "+f+")", &ext_j5pb.FieldOptions{Type: &ext_j5pb.FieldOptions_Key{Key: kf}}
 	case *ext_j5pb.FieldOptions_Any:
 		term = fmt.Sprintf("(XAny %s %s)", vh.BoolTerm(t.Any.OnlyDefined), strList(t.Any.Types))
 		back = &ext_j5pb.FieldOptions{Type: &ext_j5pb.FieldOptions_Any{Any: &ext_j5pb.AnyField{OnlyDefined: t.Any.OnlyDefined, Types: t.Any.Types}}}
